@@ -94,6 +94,10 @@ def consumption(fn, node):
             return ('field', parent)
         if k == 'assign' and role == 'r':
             return ('assigned', parent['l'])
+        if k == 'mcall' and cur.get('k') == 'closure' and parent['method'] in ('try_for_each', 'try_fold', 'and_then', 'or_else'):
+            # the closure's Result/Option becomes the result of the iterator method
+            cur = parent
+            continue
         if k in ('call', 'mcall'):
             return ('arg', parent)
         if k == 'closure':
@@ -465,6 +469,22 @@ class Flat:
 
 
 ITER_CONSUMERS = ('fold', 'try_fold', 'for_each', 'try_for_each', 'map', 'flat_map', 'filter_map', 'scan')
+
+
+def iteration_node(fn, node):
+    """the `for` node or the iterator-method call (fold / for_each / try_for_each ...) that runs `node` per element"""
+    for parent, role, child in fn.ancestors(node):
+        k = parent.get('k')
+        if k == 'for' and role == 'body':
+            return parent
+        if k == 'closure':
+            pr = fn.parent.get(id(parent))
+            while pr and pr[0] is not None and pr[0].get('k') in ('wrap', 'ref'):
+                pr = fn.parent.get(id(pr[0]))
+            if pr and pr[0] is not None and pr[0].get('k') == 'mcall' and pr[0]['method'] in ITER_CONSUMERS:
+                return pr[0]
+            return None
+    return None
 
 
 def iteration_of(fn, node):
